@@ -61,6 +61,7 @@ EXTENDS Integers, Sequences, FiniteSets, TLC
 CONSTANTS MaxSrv,      \* server events per history
           MaxCli,      \* client events (calls + stdin reader events) per history
           Cfgs,        \* set of session configurations [stdin: "nil"|"reader", outs: "nil"|"buf"]
+          ReqBuf,      \* capacity of the channel's request stream (chanSize = 16 in channel.go)
           Lite         \* alphabets: "full" | "lite" (reduced, deeper histories) | "srv" (one start call, then the server acts)
 
 VARIABLES S, hist
@@ -91,6 +92,8 @@ Init0(c) ==
    exits |-> <<>>,                                   \* ghost: exit-* requests the server sent while the channel was open
    nStartOk |-> 0,                                   \* ghost: start calls that succeeded
    ioRace |-> FALSE,                                 \* see TakeExit
+   early |-> FALSE,                                  \* Session.wait returned before the channel closed (malformed exit-* request)
+   unsv |-> 0, stalled |-> FALSE,                    \* requests nobody reads any more; the mux read loop is blocked on the stream
    out |-> <<>>, done |-> {}, last |-> Ev("init", "", 0), ns |-> 0, nc |-> 0]
 
 Begin(s, e) == [s EXCEPT !.out = <<>>, !.done = {}, !.last = e, !.ka = "", !.ioRace = FALSE]
@@ -194,6 +197,14 @@ Replied(s, ok) ==
 -----------------------------------------------------------------------------
 (* server events; s is the state after Begin *)
 
+\* The code as it is: once Session.wait has returned early (malformed exit-status / exit-signal) nobody reads the
+\* channel's request stream; it buffers ReqBuf requests, the next one blocks mux.loop inside channel.handlePacket:
+\* the whole connection stalls and the loop never gets to close anything (S9_NoStall fails; design-level
+\* counterexample with a small ReqBuf in SSHSession_Stall.cfg, directed test harness/x01 TestStall for ReqBuf = 16).
+\* A repaired Session.wait (keeps discarding requests, answering failure) never gets here; whether a keepalive
+\* after the early return is answered is therefore not compared by the bindings (Obs.kf).
+Unserviced(s) == IF s.unsv >= ReqBuf THEN [s EXCEPT !.stalled = TRUE] ELSE [s EXCEPT !.unsv = @ + 1]
+
 SrvStep(s0, e) ==
   LET s == [Begin(s0, e) EXCEPT !.ns = @ + 1] IN
   Settle(
@@ -205,15 +216,16 @@ SrvStep(s0, e) ==
     [] e.k = "seof" -> [s EXCEPT !.sEOF = TRUE]
     [] e.k = "sexit" ->
          LET s1 == [s EXCEPT !.exits = Append(@, Ev("status", "", e.x))] IN
-         IF s.waitG = "run" THEN [s1 EXCEPT !.wm.status = e.x] ELSE s1
+         IF s.waitG = "run" THEN [s1 EXCEPT !.wm.status = e.x] ELSE Unserviced(s1)
     [] e.k = "ssig" ->
          LET s1 == [s EXCEPT !.exits = Append(@, Ev("sig", e.v, 0))] IN
-         IF s.waitG = "run" THEN [s1 EXCEPT !.wm.sig = e.v] ELSE s1
+         IF s.waitG = "run" THEN [s1 EXCEPT !.wm.sig = e.v] ELSE Unserviced(s1)
     [] e.k \in {"sexitbad", "ssigbad"} ->
          LET s1 == [s EXCEPT !.exits = Append(@, Ev("bad", "", 0))] IN
-         IF s.waitG = "run" THEN [s1 EXCEPT !.waitG = "done", !.exitRes = R("malformed", 0, ""), !.exitAvail = TRUE] ELSE s1
+         IF s.waitG = "run" THEN [s1 EXCEPT !.waitG = "done", !.early = TRUE, !.exitRes = R("malformed", 0, ""), !.exitAvail = TRUE]
+         ELSE Unserviced(s1)
     [] e.k = "ska" ->                              \* want-reply request of another type: Session.wait answers failure
-         IF s.waitG = "run" THEN [Emit(s, "fail") EXCEPT !.ka = "false"] ELSE [s EXCEPT !.sKA = "pending"]
+         IF s.waitG = "run" THEN [Emit(s, "fail") EXCEPT !.ka = "false"] ELSE Unserviced([s EXCEPT !.sKA = "pending"])
     [] e.k = "sclose" -> OnClosed(Emit(s, "close"))    \* the client's mux answers close, then channel.close()
     [] e.k = "sdrop" -> OnClosed([s EXCEPT !.dead = TRUE]))
 
@@ -248,7 +260,7 @@ SrvEvents(s) == IF Lite = "lite" THEN LiteSrvEvents(s) ELSE IF Lite = "srv" THEN
 -----------------------------------------------------------------------------
 (* client events *)
 
-NewCall(s, e) == [s EXCEPT !.calls = Append(@, [k |-> e.k, v |-> e.v, st |-> "wait", res |-> NoRes])]
+NewCall(s, e) == [s EXCEPT !.calls = Append(@, [k |-> e.k, st |-> "wait", res |-> NoRes])]
 Me(s) == Len(s.calls)
 IsCall(e) == e.k \notin {"feed", "feedeof", "feederr"}
 
@@ -342,11 +354,11 @@ Init == \E c \in Cfgs : S = Init0(c) /\ hist = <<>>
 
 Obs(s) == [ev |-> s.last, out |-> s.out, done |-> s.done, go |-> s.gotOut, ge |-> s.gotErr,
            om |-> s.outMode, em |-> s.errMode, ow |-> s.outW, ew |-> s.errW,
-           si |-> s.srvIn, ka |-> s.ka, closed |-> s.closed, race |-> s.ioRace]
+           si |-> s.srvIn, ka |-> s.ka, closed |-> s.closed, race |-> s.ioRace, kf |-> s.early]
 
-Srv == /\ S.ns < MaxSrv
+Srv == /\ S.ns < MaxSrv /\ ~S.stalled
        /\ \E e \in SrvEvents(S) : S' = SrvStep(S, e) /\ hist' = Append(hist, Obs(S'))
-Cli == /\ S.nc < MaxCli
+Cli == /\ S.nc < MaxCli /\ ~S.stalled
        /\ \E e \in CliEvents(S) : S' = CliStep(S, e) /\ hist' = Append(hist, Obs(S'))
 Next == Srv \/ Cli
 Spec == Init /\ [][Next]_<<S, hist>>
@@ -427,6 +439,9 @@ S7_ReplyValue ==
 S8_NoStuckCall ==
   S.closed => /\ S.reqWaiter = 0 /\ S.waiter = 0 /\ S.sKA = "none"
               /\ \A c \in Calls : S.calls[c].st = "done"
+
+\* S9 (model level): the client's read loop is never blocked for good by requests nobody services
+S9_NoStall == ~S.stalled
 
 TypeOK ==
   /\ S.ns \in 0 .. MaxSrv /\ S.nc \in 0 .. MaxCli
